@@ -165,6 +165,7 @@ func (b *Broker) onPacket(c *Conn, st *bconn, p *Packet) {
 			if rc := b.Opts.Refuse(n); rc != 0 {
 				b.send(c, EncConnack(false, rc))
 				st.closed = true
+				w.Trouble()
 				w.Ev("broker", c.id, "CONNECT refused rc=%d", rc)
 				return
 			}
